@@ -207,6 +207,35 @@ func smrDrivers(tier string) []smrDriver {
 				},
 			}})
 	}
+	// S9: the only upper-level node — hence the shard pivot of a two-shard Visitor — is a dead version that is
+	// collected and freed while the visit runs
+	ds = append(ds, smrDriver{name: "S9-visitor-pivot-collected", writers: 1,
+		setup: func(e *nEnv, x *smrCtx) {
+			e.putL(0, "a", 0)
+			e.putL(0, "b", 1)
+			e.putL(0, "c", 0)
+			snap(e, x)
+			e.ws[0].Delete([]byte("b"))
+			snap(e, x)
+			snap(e, x)
+		},
+		threads: []func(e *nEnv, x *smrCtx){
+			func(e *nEnv, x *smrCtx) {
+				var got []string
+				err := e.db.Visitor(x.snaps[2], func(itm *nitro.Item, shard int) error {
+					bs := itm.Bytes()
+					e.touch(bs, "item passed to the Visitor callback")
+					got = append(got, string(bs))
+					vrt.Fence()
+					return nil
+				}, 2, 1)
+				x.res[0] = fmt.Sprint(showAll(got), err)
+				if fmt.Sprint(got) != "[a c]" {
+					vrt.Fail("visitor", fmt.Sprintf("Visitor on the newest snapshot delivered %s instead of [a c] while older snapshots were closed and collected", showAll(got)))
+				}
+			},
+			func(e *nEnv, x *smrCtx) { x.snaps[0].Close(); x.snaps[1].Close(); x.snaps[0], x.snaps[1] = nil, nil },
+		}})
 	// S6: Delete2 = lookup + DeleteNode against a same-epoch delete of the same key by another writer
 	ds = append(ds, smrDriver{name: "S6-delete2-vs-delete", writers: 2,
 		setup: func(e *nEnv, x *smrCtx) { e.putL(0, "k", 0) },
